@@ -72,10 +72,11 @@ GENERIC_HREFS = [
     ("rel-bare-amp", "/s?a=1&b=2"),
     ("rel-nonascii", "/é"),
     ("rel-pct", "/%C3%A9"),
-    ("rel-nbsp", "/a b"),
-    ("rel-emspace", "/a b"),
-    ("rel-ideographic-space", "/a　b"),
+    ("rel-nbsp", "/a\u00a0b"),
+    ("rel-emspace", "/a\u2003b"),
+    ("rel-ideographic-space", "/a\u3000b"),
     ("rel-space", "/a b"),
+    ("rel-emoji", "/\U0001f600?q=\u4e2d"),
     ("rel-dotdot", ".."),
     ("rel-slash", "/"),
     ("rel-quote-entity", "/q&quot;&#39;&lt;&gt;"),
@@ -183,19 +184,22 @@ PIECES = [
     ("A8", '<a data-href="/d8" href=/8 rel=nofollow>t</a>', ["/8"]),
     ("A9", '<a href=" /9?a=1&amp;b=&#x2F; ">t</a>', [" /9?a=1&amp;b=&#x2F; "]),
     ("A10", '<a href="">t</a>', [""]),
-    ("A11", '<a href="/é 中">t</a>', ["/é 中"]),
-    ("A12", "<a href=/12 z>t</a>", None),
-    ("A13", '<a href="/13">t</a>', None),
+    ("A11", '<a href="/é\u00a0\u4e2d">t</a>', ["/é\u00a0\u4e2d"]),
+    ("A12", "<a href=/12\u00a0z>t</a>", None),
+    ("A13", '<a\u2003href="/13">t</a>', None),
     ("S1", "<script>var s='<a href=\"/s1\">x</a>';</script>", []),
     ("S2", "<SCRIPT type=\"text/javascript\">if(a<b)document.write(\"<a href='/s2'>x<\\/a>\");</SCRIPT>", []),
     ("S3", '<script src="/s3.js"></script>', []),
+    ("S4", "<script>\n// c\n<a href=/s4>\n</script>", []),
     ("T1", " hello ", []),
     ("T2", "1 < 2 > 0 ", []),
-    ("T3", "R&amp;D &#x2F; café　中", []),
+    ("T3", "R&amp;D &#x2F; café\u3000\u4e2d", []),
     ("T4", "<p>para</p>", []),
     ("T5", "\n", []),
     ("T6", "it's \"q\" ", []),
     ("Z1", '<a href="/z1"', None),
+    # U+017F case-folds to 's' under re.I on str patterns only: not a script element, relational clauses only
+    ("X1", '<\u017fcript><a href="/x1">t</a></\u017fcript>', None),
 ]
 PIECE = {n: (t, e) for n, t, e in PIECES}
 
@@ -464,11 +468,9 @@ def layer_a(st, col, first, maxlen, links_every):
     """all sequences of <= maxlen structural pieces starting with `first`"""
     names = [p[0] for p in PIECES]
     k = 0
-    for n in range(1, maxlen + 1):
-        for rest in itertools.product(names, repeat=n - 1):
+    for n in range(len(first), maxlen + 1):
+        for rest in itertools.product(names, repeat=n - len(first)):
             seq = first + rest
-            if len(seq) != n:
-                continue
             doc = "".join(PIECE[x][0] for x in seq)
             amb = any(PIECE[x][1] is None for x in seq)
             built = None
@@ -541,8 +543,8 @@ def layer_c(st, col, bi, first, maxlen):
 
 RAND_PREFIX = ["", "/", "//b.org/", "http://b.org/", "https://c.co.uk/", "../", "./", "?", "#", "HTTP://B.ORG/", "http://a.com/d/",
                "//a.com/d/", "javascript:", "mailto:", "http://b.notatld/"]
-RAND_SEG = ["x", "y", "p.html", "é", "a%20b", "a b", "..", ".", "/", "&amp;", "&#x2F;", "?q=1", "#f", ":", "%C3%A9", " ",
-            "&", "=", "中", "%2F", "&#x3F;", "+", "~", " "]
+RAND_SEG = ["x", "y", "p.html", "é", "a%20b", "a b", "..", ".", "/", "&amp;", "&#x2F;", "?q=1", "#f", ":", "%C3%A9", "\u00a0",
+            "&", "=", "\u4e2d", "%2F", "&#x3F;", "+", "~", "\u2003"]
 
 
 def rand_href(rnd, base):
@@ -676,7 +678,7 @@ def main():
     col.rule = (
         "(A) every concatenation of <= %d of %d structural pieces (anchors in the 3 quoting styles, upper-case, extra attributes, "
         "newline separators, data-href, unclosed, no href, empty href, padded + entity href, non-ASCII href, script blocks containing "
-        "anchors, text with entities / non-ASCII / stray quotes and angle brackets; 3 deliberately ambiguous pieces for the relational "
+        "anchors, text with entities / non-ASCII / stray quotes and angle brackets; 4 deliberately ambiguous pieces (U+00A0 in an unquoted href, U+2003 as separator, truncated tag, U+017F in a tag name) for the relational "
         "clauses only), as str and as UTF-8 bytes, urls_from_html against a hand-written start-tag scanner, links_from_html on every "
         "%dth document with a rotating (base, option set); (B) every href kind (%d generic + 5-8 base-dependent: equal to the base "
         "literally / by spelling / after canonicalisation / by resolution) x 3 quoting styles x %d decorations x 2 contexts x %d bases x "
